@@ -413,7 +413,7 @@ def apply_mutation(m, label, W):
             c["ext"] = W.choice([b";a =b", b";a= b"])
             V = either()
         elif label == "cdata_no_crlf":
-            c["term"] = W.choice([b"XX", b"X\r\n", b""])
+            c["term"] = W.choice([b"XX", b"X\r\n", b"", b"X\n", b"\rX", b"\n\n", b"\r\r", b"\n\r"])
         elif label == "cdata_lf_only":
             c["term"] = b"\n"
         elif label == "cdata_cr_only":
